@@ -75,6 +75,7 @@ def global_codes(per_shard):
 def short_input(inp, limit=700):
     """a replayable, readable rendering of one harness input"""
     return {"Files": inp["Files"], "Dirs": inp.get("Dirs"), "Main": inp["Main"], "Defines": inp.get("Defines"),
+            "UseStdin": inp.get("UseStdin", False), "Stdin": inp.get("Stdin", ""),
             "IP": inp.get("IP"), "Stream": inp.get("Stream"), "Fault": inp.get("Fault")}
 
 
